@@ -441,6 +441,46 @@ fn judge_row(case: &Case, l: &mut Local) {
     }
 }
 
+/// The ball started ON a given point of a filled lattice block (`which` x `which` points, spacing 1; `idx[0]` = the
+/// start index, `idx[1]` = direction, `param` = radius): interior points are enclosed, for them no empty starting
+/// ball exists. Whatever the routine answers, a reported walk must consist of empty balls.
+fn judge_block_start(case: &Case, l: &mut Local) {
+    let mk = || serde_json::to_value(case).unwrap();
+    let k = case.which;
+    // a sheared block, so that no four points are cocircular with the ball
+    let pts: Vec<Point2> = (0..k * k).map(|i| Point2::new((i % k) as f64 + 0.13 * (i / k) as f64, (i / k) as f64 * 0.9)).collect();
+    let rad = case.param;
+    let pdir = if case.idx[1] == 0 { AngleDir::Ccw } else { AngleDir::Cw };
+    l.eval();
+    verif::set_budget(20_000);
+    let r = guarded(|| ball_pivot_with_centers_2d(&pts, BallPivotStart::StartOnIndex(case.idx[0]), BallPivotEnd::EndOnRepeat, pdir, rad).map_err(|e| e.to_string()));
+    reset_budget();
+    match r {
+        Err(e) => {
+            l.check("ball pivot terminates", if e.contains("VERIF_BUDGET") { "budget" } else { "panic" }, false, mk, || e.clone());
+        }
+        Ok(Err(_)) => {
+            l.bucket("ball pivot start on a point refused");
+        }
+        Ok(Ok((idx, centres))) => {
+            l.bucket("ball pivot started on a given point");
+            let mut deepest = 0.0f64;
+            let mut worst = 0.0f64;
+            for (j, c) in centres.iter().enumerate() {
+                if j + 1 >= idx.len() {
+                    break;
+                }
+                worst = worst.max((d2(c, &pts[idx[j]]) - rad).abs()).max((d2(c, &pts[idx[j + 1]]) - rad).abs());
+                for p in pts.iter() {
+                    deepest = deepest.max(rad - d2(p, c));
+                }
+            }
+            l.outcome(hash_of(&(idx.len().min(20), 13u8)));
+            l.check("every pivot step has its centre one radius from both hull points and no point strictly inside", "start on index", idx[0] == case.idx[0] && worst <= 1e-9 && deepest <= 1e-9, mk, || format!("start {} radius {}: indices {:?}, worst radius error {:e}, deepest point {:e} inside a ball", case.idx[0], rad, idx, worst, deepest));
+        }
+    }
+}
+
 fn sample_mesh(which: usize) -> Mesh {
     match which {
         0 => Mesh::create_box(1.0, 2.0, 3.0, false),
@@ -648,6 +688,7 @@ pub fn judge(case: &Case, l: &mut Local) {
         "diam" => judge_diam(case, l),
         "polygon" => judge_polygon(case, l),
         "row" => judge_row(case, l),
+        "blockstart" => judge_block_start(case, l),
         "uniform" => judge_uniform(case, l),
         "dense" => judge_dense(case, l),
         "mpoisson" => judge_mpoisson(case, l),
@@ -780,6 +821,16 @@ pub fn cases(tier: Tier) -> Vec<Case> {
             out.push(c("diam", m, 0, 0.0));
         }
     }
+    // the ball started on every point of filled 3x3 and 4x4 blocks, three radii, both directions
+    for k in [3usize, 4] {
+        for i in 0..k * k {
+            for d in 0..2usize {
+                for rad in [0.6, 0.75, 1.2] {
+                    out.push(c("blockstart", vec![i, d], k, rad));
+                }
+            }
+        }
+    }
     // open wavy rows of 3..8 points x 3 waviness patterns x both rolling directions x 4 length units
     for n in 3..=8usize {
         for pat in 0..3usize {
@@ -842,7 +893,7 @@ pub fn run(tier: Tier) -> i32 {
     let mut cx = Ctx::new("C15", tier, "exploration");
     cx.rule = "kd-trees: every multiset of <= 4 points of the 3x3 lattice and <= 3 of the 2x2x2 lattice (duplicates included), 4 structured large sets (8x8 grid, 40 duplicates, 1000 collinear, two clusters) x a half-integer query grid x k in {1,2,3,n,n+2} x 5 radii; partial tree: every ordered subset of <= 4 of 6 points; Poisson disk: every ordering of every subset (2..5) of 6 lattice points x 4 radii; hulls: every subset of 3..6 lattice points (+ duplicates); farthest pair on the hull of every subset of 3..4 (thorough 5) points of a 5x5 lattice given as a polygon from every start vertex; every simple lattice polygon with <= 5 (thorough 6) vertices in both orientations for order detection, from_points_ccw and ball pivot at 3 radii; mesh sampling with the RNG owned by the explorer: all 216 draw triples per mesh for sample_uniform, dense sampling at 3 spacings, the Poisson sampler's shuffle explored with <= 2 non-default draws. distinct = distinct cases".into();
     cx.bounds = json!({"kd2_multiset": 4, "kd3_multiset": 3, "partial_subset": 4, "poisson_subset": 5, "polygon_vertices": tier.pick(5, 7), "rng_alphabet": 6, "shuffle_deviations": 2});
-    cx.require(&["ball pivot round an open row", "ball pivot at another length unit", "kd-tree with duplicate points", "kd-tree with distinct points", "kd-tree at another length unit", "3D kd-tree", "structured large kd-tree", "kd-tree over gridded mesh samples", "index-remapped partial tree", "poisson-disk ordering", "collinear point set", "point set with duplicates", "general point set", "convex polygon given directly, every start vertex", "counter-clockwise simple polygon", "clockwise simple polygon", "ball pivot run", "ball pivot outline with filled gaps", "scripted uniform draw", "dense sampling", "scripted shuffle of the mesh Poisson sampler"]);
+    cx.require(&["ball pivot started on a given point", "ball pivot start on a point refused", "ball pivot round an open row", "ball pivot at another length unit", "kd-tree with duplicate points", "kd-tree with distinct points", "kd-tree at another length unit", "3D kd-tree", "structured large kd-tree", "kd-tree over gridded mesh samples", "index-remapped partial tree", "poisson-disk ordering", "collinear point set", "point set with duplicates", "general point set", "convex polygon given directly, every start vertex", "counter-clockwise simple polygon", "clockwise simple polygon", "ball pivot run", "ball pivot outline with filled gaps", "scripted uniform draw", "dense sampling", "scripted shuffle of the mesh Poisson sampler"]);
     cx.assume("ties exactly on the k-th neighbour or the radius boundary are gray (either answer accepted); uniformity beyond 'the face is the inverse-CDF image of the draw' is not claimed");
     let cs = cases(tier);
     let l = sweep(&cs, judge);
